@@ -6,10 +6,10 @@ from rig import Infra
 
 META = {
     "engine": "AEProduct(AELexer x AEHTMLTok/AEJSLex/AECSSLex)+AEContext+AEConfine",
-    "technique": "TLA+ product automaton of an implementation-shaped model of lexer.scan and a reference WHATWG-HTML/JavaScript/CSS/JSON tokenizer, explored by TLC to a fix-point over a fragment alphabet (documents of unbounded length); every reachable product state's shortest document is built by the real code with a show at every fragment boundary (real ast.Show contexts judged against the reference slots by TLC: candidates and root causes), then rendered with a context-breaking value dictionary; TLC tokenises every rendered output with the reference tokenizers and compares its structure signature with that of the benign rendering",
+    "technique": "TLA+ product automaton of an implementation-shaped model of lexer.scan and a reference WHATWG-HTML/JavaScript/CSS/JSON tokenizer, explored by TLC over a fragment alphabet to the fix-point of the region where the two machines are in step (documents of unbounded length) plus a bounded number of fragments behind every root cause; the shortest document of every product state is built by the real code with a show at every fragment boundary (real ast.Show contexts judged against the reference slots by TLC: candidates and root causes) and every transition out of a synchronised state is replayed against the real lexer; holes of every (context, slot, root cause) class are rendered with a context-breaking value dictionary, and TLC tokenises every rendered output with the reference tokenizers and compares its structure signature with that of the benign rendering",
     "level": "model_checking",
-    "level_text": "MC_AEProduct: TLC explores the product of AELexer (lexer.scan transcribed branch by branch) and the reference tokenizers over 16 fragments (quick) / 63 fragments broad + 26 fragments deep (thorough): the region where both machines are in step to its fix-point, and a bounded number of fragments behind every root cause; states that neither agree nor are confinement-compatible are breaking edges (diagnostic). Context level: every exported document is built by the real lexer with `{{ x }}` at each boundary; Trace_AEContext runs the reference over the bytes, computes Agree / Compatible / root cause per boundary and reports model drift of AELexer. Confinement level (the verdict): for at least one hole per reachable (context, URL, slot, attribute kind, root cause) class, at the end of a document and in front of a suffix, the document is rendered with ~100 values (strings, numbers, booleans, Stringer, error, slices, maps, structs; trusted types as negative control), directly and through a macro, an in-place macro, an imported macro and rendered .html/.txt files; Trace_AEConfine requires Signature(output with value) = Signature(output with the benign value of the same type and shape).",
-    "level_note": "Trusted: TLC, the Json module, the reference tokenizers themselves (WHATWG tokenizer without character-reference decoding, foreign content and noscript; JavaScript lexical grammar with the usual regex heuristic; css-syntax token boundaries), the driver (concretises documents, calls BuildTemplate/Run, reads ast.Show.Context in ExpandedTransformer, logs). URL structure inside URL attributes is not part of the signature; Markdown files are not generated; JS/CSS/JSON files only in the thorough tier.",
+    "level_text": "MC_AEProduct: TLC explores the product of AELexer (lexer.scan transcribed branch by branch) and the reference tokenizers; quick: HTML files, 16 fragments, unbounded behind a root cause; thorough: HTML files with 63 fragments (2 fragments behind a root cause) and 26 fragments (5 behind), JS, CSS and JSON files with 20/16/12 fragments. States that neither agree nor are confinement-compatible are breaking edges (diagnostic). Context level: the documents form a prefix tree; every node is built by the real lexer with `{{ x }}` appended and Trace_AEContext steps the reference over the tree and computes Agree / Compatible / root cause per node; the context AELexer predicts after every transition out of a synchronised state is compared with the real one (model drift; drifted documents are continued by two more fragments). Confinement level (the verdict): for every reachable (context, URL, slot, attribute kind, root cause) class one hole at the end of a document and up to 2 (quick) / 6 (thorough) holes in front of different next fragments are rendered with ~110 values (strings, numbers, booleans, Stringer, error, slices, maps, structs; the trusted types as negative control), directly and through a macro, an in-place macro, an imported macro and rendered .html/.txt files; Trace_AEConfine requires Signature(output with value) = Signature(output with the benign value of the same type and shape).",
+    "level_note": "Trusted: TLC, the Json module, the reference tokenizers themselves (WHATWG tokenizer with the tree builder's tokenizer switches, without foreign content and noscript; character references are decoded only inside event-handler and style attribute values (numeric and amp/lt/gt/quot/apos); JavaScript lexical grammar with the usual regex heuristic; css-syntax token boundaries), the driver (concretises documents, calls BuildTemplate/Run, reads ast.Show.Context in ExpandedTransformer, logs). URL structure inside URL attributes is not part of the signature; Markdown files are not generated; JS/CSS/JSON files only in the thorough tier; the {% macro %} context stack of the lexer is exercised only through the in-place macro at the hole.",
     "design_ref": "7/C06",
 }
 FAMS = ["autoescape"]
@@ -96,6 +96,12 @@ PROPOSED_KNOWN = [
        root=_root(slot="css-code")),
     _k("scanTag ends a tag name at `{`; for the tokenizer the name goes on (`<x${=`)",
        root=_root(slot="tag-name")),
+    _k("consequence of scanTag ending a tag name at `{`: what follows is an attribute for the lexer (`<x${ =`)",
+       root=_root(ctx="Tag", slot="attr-name", toctx="UnquotedAttr", to="attr-name")),
+    _k("lexer.scan believes it is inside a JS comment when a string literal starts (consequence of the HTML-like comments it does not know: `<!--/*` newline `\"`)",
+       root=_root(ctx="JS", toctx="JS", to="js-string-dq")),
+    _k("lexer.scan believes it is inside a JS comment when a string literal starts (single-quoted)",
+       root=_root(ctx="JS", toctx="JS", to="js-string-sq")),
     _k("a value shown inside a JavaScript block comment is written as a quoted string that keeps `*/`",
        root="none", ctx="JS", slot="js-comment-block"),
     _k("an empty value shown as a whole unquoted attribute value leaves `name=` followed by the next attribute, which becomes its value",
@@ -286,7 +292,7 @@ def context_level(ctx, step, docs, frags, fmt="HTML"):
         raise Infra(f"context level: {len(byid)} judged nodes of {len(nodes)}")
     for n in nodes:
         r, o = byid[n["id"]], real[n["id"]]
-        info[n["pre"]] = {"ctx": o["ctx"], "url": o["url"], "slot": r["slot"], "kind": r["kind"], "agree": r["agree"], "compat": r["compat"],
+        info[n["pre"]] = {"ctx": o["ctx"], "url": o["url"], "closer": o.get("closer", []), "slot": r["slot"], "kind": r["kind"], "agree": r["agree"], "compat": r["compat"],
                           "root": r["root"], "drift": r["drift"], "mctx": r["mctx"]}
     return info
 
@@ -302,7 +308,9 @@ def holes_of(docs, info, frags):
                 continue
             root = x["root"]
             rk = "none" if "none" in root else json.dumps([root["ctx"], root["slot"], root["kind"], root["toctx"], root["to"], root["tokind"]])
-            yield {"frags": fb, "hole": i, "end": i == len(d), "compat": x["compat"], "agree": x["agree"],
+            # a hole at the end of a document that only builds with a closer after the hole gets that closer as suffix
+            yield {"frags": fb + [x["closer"]] if i == len(d) and x.get("closer") else fb,
+                   "hole": i, "end": i == len(d), "compat": x["compat"], "agree": x["agree"],
                    "pt": {"ctx": CN.get(c, "none"), "url": x["url"], "slot": x["slot"], "kind": x["kind"],
                           "root": "none" if "none" in root else root},
                    "key": (CN.get(c, "none"), x["url"], x["slot"], x["kind"], rk)}
